@@ -129,6 +129,12 @@ def main(tier):
             for m, o in enumerate(OVRS):
                 ovr = [{'v': k, 'val': project.num(v)} for k, v in o]
                 jobs.append({'id': '%s/%d/o%d' % (name, n, m), 'prog': p, 'ovr': ovr})
+            if n % 3 == 0:
+                # one integer literal replaced by another small value (0 and -1 included); validity is the spec's business
+                for q in passes.edge_variants(p, rng):
+                    for m, o in enumerate(OVRS[:3]):
+                        ovr = [{'v': k, 'val': project.num(v)} for k, v in o]
+                        jobs.append({'id': '%s/%d/edge/o%d' % (name, n, m), 'prog': q, 'ovr': ovr})
     rep.phase('tlc_enumeration')
     recs = core.pool_map(run_pipeline, jobs, chunksize=100)
     rep.phase('replay')
